@@ -22,7 +22,7 @@ from pv.surface import print_doc
 from pv import builder
 from pydbml import PyDBML
 out = {}
-for it in json.load(sys.stdin):
+for it in reversed(json.load(sys.stdin)):      # opposite order: a rendering must not depend on what was rendered before
     try:
         if it['route'] == 'parsed':
             db = PyDBML(print_doc(it['doc'], it['fseed'], it['pinned']), allow_properties=it['model']['allowprops'])
